@@ -54,6 +54,7 @@ func (g gcase) key() string {
 //	dup-def    task VarArg is defined twice
 //	fail       the first command of task VarArg exits 3
 //	files      odd tasks depend on the file dep.txt (so repeated runs skip them)
+//	dup-mention every task names each of its dependencies twice (a, b, b, a): same graph
 //	var-shadow a variable with the name of task VarArg is defined first (an identifier in a
 //	           dependency list still names the task)
 func (g gcase) text(real bool, logPath string) string {
@@ -65,6 +66,11 @@ func (g gcase) text(real bool, logPath string) string {
 		var deps []string
 		for _, j := range g.deps(i) {
 			deps = append(deps, c03Names[j])
+		}
+		if g.Variant == "dup-mention" {
+			for k := len(deps) - 1; k >= 0; k-- {
+				deps = append(deps, deps[k])
+			}
 		}
 		if g.Variant == "undef-dep" && g.VarArg == i {
 			deps = append(deps, "zz")
@@ -252,7 +258,7 @@ func c03Run(c *core.Ctx) bool {
 	cov := map[string]any{
 		"evaluations":         res.Evaluations,
 		"distinct_nontrivial": distinct,
-		"rule":                "every digraph (all edge subsets incl. self loops) on 1..3 tasks (and 4 tasks: all 65536 in thorough, a seeded 4096 sample in quick) x every non-empty request set in ascending and descending order plus one duplicated request, sampled graphs of 5-8 tasks, variants with an undefined dependency / undefined request / duplicate definition / failing command / file dependencies (so that repeats skip); each (graph, request) is loaded once and run repeatedly in-process with a recording runner so that the map order inside the topological sort varies; a sample also goes through the race-built binary with --json. evaluations = Run calls; non-trivial = distinct (graph, request, variant) whose closure has >=2 tasks or for which an error is demanded",
+		"rule":                "every digraph (all edge subsets incl. self loops) on 1..3 tasks (and 4 tasks: all 65536 in thorough, a seeded 4096 sample in quick) x every non-empty request set in ascending and descending order plus one duplicated request, sampled graphs of 5-8 tasks, variants with an undefined dependency / undefined request / duplicate definition / failing command / file dependencies (so that repeats skip) / dependencies mentioned twice; each (graph, request) is loaded once and run repeatedly in-process with a recording runner so that the map order inside the topological sort varies; a sample also goes through the race-built binary with --json. evaluations = Run calls; non-trivial = distinct (graph, request, variant) whose closure has >=2 tasks or for which an error is demanded",
 		"samples":             res.Samples,
 		"counters":            res.Counters,
 		"exhaustive":          false,
@@ -377,7 +383,7 @@ func c03Worker(c *core.Ctx) {
 				c03Case(c, res, wl, root, b.ID, &idx, gc, reps)
 			}
 			// one variant of each kind with one seeded request
-			for _, variant := range []string{"undef-dep", "undef-req", "dup-def", "fail", "files", "var-shadow"} {
+			for _, variant := range []string{"undef-dep", "undef-req", "dup-def", "fail", "files", "var-shadow", "dup-mention"} {
 				if g.N >= 3 && !r.Chance(35) {
 					continue // keep the cost of the big enumerations bounded
 				}
@@ -597,6 +603,8 @@ func c03Binary(c *core.Ctx) *core.ShardResult {
 			g.Req = append(g.Req, -1)
 		case 2:
 			g.Variant, g.VarArg = "dup-def", r.Intn(nn)
+		case 3:
+			g.Variant = "dup-mention"
 		}
 		cases = append(cases, g)
 	}
